@@ -111,6 +111,8 @@ class Method(Variable):  # i.e. TypeBound procedure
         return None
 
     def resolve_link(self, obj_tree):
+        # Forget the procedure found earlier, it may not exist anymore
+        self.link_obj = None
         if self.link_name is None:
             return
         if self.parent is not None:
